@@ -292,6 +292,65 @@ fn policyset_ops(req: &J) -> J {
     json!({"steps": steps})
 }
 
+/// partial interpretation of one expression by the core evaluator (unknown("x") allowed); entities optional, `partial`: partial store
+fn peval(req: &J) -> J {
+    use cedar_policy_core::ast::{Context, EntityUID, Expr, PartialValue, Request, RequestSchemaAllPass};
+    use cedar_policy_core::entities::{Entities as CoreEntities, EntityJsonParser, NoEntitiesSchema, TCComputation};
+    use cedar_policy_core::evaluator::Evaluator;
+    use cedar_policy_core::extensions::Extensions;
+    let expr: Expr = match req["expr"].as_str().unwrap_or("").parse() {
+        Ok(e) => e,
+        Err(e) => return json!({"parse_error": format!("{e}")}),
+    };
+    let exts = Extensions::all_available();
+    let mut entities = match req.get("entities") {
+        Some(j) if !j.is_null() => {
+            let parser: EntityJsonParser<'_, '_, NoEntitiesSchema> = EntityJsonParser::new(None, exts, TCComputation::ComputeNow);
+            match parser.from_json_value(j.clone()) {
+                Ok(e) => e,
+                Err(e) => return json!({"input_error": e.to_string()}),
+            }
+        }
+        _ => CoreEntities::new(),
+    };
+    if req["partial"].as_bool().unwrap_or(false) {
+        entities = entities.partial();
+    }
+    let uid = |s: &str| -> EntityUID { s.parse().unwrap() };
+    let q = match Request::new(
+        (uid(r#"User::"alice""#), None),
+        (uid(r#"Action::"view""#), None),
+        (uid(r#"Photo::"p""#), None),
+        Context::empty(),
+        None::<&RequestSchemaAllPass>,
+        exts,
+    ) {
+        Ok(q) => q,
+        Err(e) => return json!({"input_error": e.to_string()}),
+    };
+    let eval = Evaluator::new(q, &entities, exts);
+    match eval.partial_interpret(&expr, &std::collections::HashMap::new()) {
+        Ok(PartialValue::Value(v)) => {
+            let kind = match v.value_kind() {
+                cedar_policy_core::ast::ValueKind::Lit(cedar_policy_core::ast::Literal::Bool(_)) => "bool",
+                cedar_policy_core::ast::ValueKind::Lit(cedar_policy_core::ast::Literal::Long(_)) => "long",
+                cedar_policy_core::ast::ValueKind::Lit(cedar_policy_core::ast::Literal::String(_)) => "string",
+                cedar_policy_core::ast::ValueKind::Lit(cedar_policy_core::ast::Literal::EntityUID(_)) => "entity",
+                cedar_policy_core::ast::ValueKind::Set(_) => "set",
+                cedar_policy_core::ast::ValueKind::Record(_) => "record",
+                cedar_policy_core::ast::ValueKind::ExtensionValue(_) => "ext",
+            };
+            json!({"value": {"kind": kind, "v": v.to_string()}})
+        }
+        Ok(PartialValue::Residual(e)) => json!({"residual": e.to_string()}),
+        Err(e) => {
+            let d = format!("{e:?}");
+            let class: String = d.split(|c: char| !c.is_alphanumeric() && c != '_').next().unwrap_or("").to_string();
+            json!({"err": class, "msg": e.to_string()})
+        }
+    }
+}
+
 fn handle(req: &J) -> J {
     match req["op"].as_str().unwrap_or("") {
         "eval" => eval(req),
@@ -299,6 +358,7 @@ fn handle(req: &J) -> J {
         "authorize_partial" => authorize_partial(req),
         "tpe_views" => tpe_views(req),
         "policyset_ops" => policyset_ops(req),
+        "peval" => peval(req),
         other => json!({"unknown_op": other}),
     }
 }
